@@ -282,6 +282,10 @@ def run(ctx):
             row('R09.W', 'wire image of the registration response = evaluated element || server_public_key', wire, want, where_of(s), sn)
     ns = len(ctx.suite_names)
     rep.floor('R09', 'formula rows matched', rows, ns * 150)
+    # R09.H the group's HashToScalar used by DeriveDiffieHellmanKeyPair is the reviewed dependency function over the suite's hash
+    n_h2s = sum(an.kegroup_h2s_reviewed(ctx, rep, 'R09.H', sn) for sn in ctx.suite_names)
+    rep.floor('R09.H', 'KeGroup::hash_to_scalar instances reviewed (every suite whose key-exchange group is not Curve25519)', n_h2s,
+              sum(1 for sn in ctx.suite_names if suite_params(sn)['ke'] != 'c25519'))
     rep.ob('R09.LBL', 'all 13 RFC labels occur, by content, in matched formulas', len(labels_seen) == 13,
            'missing: %s' % [l for l in rfc.LABELS if l not in labels_seen], '', None)
     from rules import profile
